@@ -67,21 +67,23 @@ type c04CrashDir struct {
 	At      string `json:"at"`      // flush | sign_before | computed | tmp | renamed | sign_after | wsync_mid | wsync_after
 	Keep    int    `json:"keep"`    // unsynced WAL records that survive, of Of
 	Of      int    `json:"of"`      //
+	Exact   bool   `json:"exact"`   // Keep counts concrete records (replay of a recorded run)
 	Torn    bool   `json:"torn"`    // the next record survives partially
-	TornLen int    `json:"tornlen"` // bytes of the torn record that survive (0 = harness picks)
+	TornLen int    `json:"tornlen"` // bytes of the torn record that survive (0 = harness picks, -1 = at least 4)
 	TmpTorn bool   `json:"tmptorn"` // stage computed: a torn temp file is left behind
 	Attempt int    `json:"attempt"` // the n-th signing attempt inside this op (1-based)
 }
 
 type c04Op struct {
 	Op      string       `json:"op"` // in | own | crash | restart
-	T       string       `json:"t"`  // in: start | tprop | prop | polka | any | next
+	T       string       `json:"t"`  // in: start | tprop | prop | polka | twait | any | next
 	R       int32        `json:"r"`
 	V       string       `json:"v"`
 	Fv      string       `json:"fv"` // the block class createProposalBlock will produce now
 	Keep    int          `json:"keep"`
 	Of      int          `json:"of"`
 	Torn    bool         `json:"torn"`
+	Exact   bool         `json:"exact"` // Keep counts concrete records (replay of a recorded run)
 	TornLen int          `json:"tornlen"`
 	Crash   *c04CrashDir `json:"crash"`
 }
@@ -172,12 +174,14 @@ type c04Env struct {
 	// WAL byte accounting
 	syncedEnd int64   // logical size of the head right after the last FlushAndSync returned
 	bounds    []int64 // logical end offset after each Write since then
+	groupEnds []int   // len(bounds) at the end of each schedule op since then (one op = one abstract record)
 
 	// crash directive
 	dir      *c04CrashDir
 	attempts int // signing attempts seen in the current op
 	fired    bool
 	tornLen  int
+	exact    bool
 	aborted  string
 }
 
@@ -337,11 +341,8 @@ func (e *c04Env) projSB(sb []byte) c04SB {
 		if p.BlockID != nil {
 			h = p.BlockID.Hash
 		}
-		v := e.className(h)
-		if p.POLRound != -1 {
-			v += "@" + strconv.Itoa(int(p.POLRound))
-		}
-		return c04SB{T: "proposal", H: p.Height, R: p.Round, V: v, Ts: e.tsClass(p.Timestamp)}
+		// the block class only: POLRound is part of the sign bytes but not of "which block"
+		return c04SB{T: "proposal", H: p.Height, R: p.Round, V: e.className(h), Ts: e.tsClass(p.Timestamp)}
 	}
 	var v tmproto.CanonicalVote
 	if err := protoio.UnmarshalDelimited(sb, &v); err != nil {
@@ -484,6 +485,7 @@ func (w *c04WAL) noteWrite(m WALMessage) {
 
 func (w *c04WAL) noteSync(op string) {
 	w.e.bounds = w.e.bounds[:0]
+	w.e.groupEnds = w.e.groupEnds[:0]
 	w.e.syncedEnd = w.logicalEnd()
 	w.e.emit(map[string]interface{}{"ev": "Wal", "op": op, "msg": "none"})
 }
@@ -547,6 +549,13 @@ func (w *c04WAL) Stop() error {
 }
 func (w *c04WAL) Wait() {}
 
+func c04Max64(a, b int64) int64 {
+	if a > b {
+		return a
+	}
+	return b
+}
+
 func c04Max(a, b int) int {
 	if a > b {
 		return a
@@ -592,9 +601,6 @@ func (p *c04PV) SignProposal(chainID string, pr *tmproto.Proposal) error {
 		p.e.register(p.e.curFv, *bid)
 	}
 	cl := p.e.className(pr.BlockID.Hash)
-	if pr.PolRound != -1 {
-		cl += "@" + strconv.Itoa(int(pr.PolRound))
-	}
 	req := c04SB{T: "proposal", H: pr.Height, R: int64(pr.Round), V: cl, Ts: p.e.tsClass(pr.Timestamp)}
 	p.e.noteSignBytes(types.ProposalSignBytes(chainID, pr))
 	return p.call("SignProposal", req, func() (error, c04Out) {
@@ -603,11 +609,7 @@ func (p *c04PV) SignProposal(chainID string, pr *tmproto.Proposal) error {
 			return err, c04NoOut
 		}
 		p.e.noteSignBytes(types.ProposalSignBytes(chainID, pr))
-		c := p.e.className(pr.BlockID.Hash)
-		if pr.PolRound != -1 {
-			c += "@" + strconv.Itoa(int(pr.PolRound))
-		}
-		return nil, c04Out{V: c, Ts: p.e.tsClass(pr.Timestamp), Sig: p.e.projSig(pr.Signature)}
+		return nil, c04Out{V: p.e.className(pr.BlockID.Hash), Ts: p.e.tsClass(pr.Timestamp), Sig: p.e.projSig(pr.Signature)}
 	})
 }
 
@@ -743,6 +745,7 @@ func (e *c04Env) openWAL() *c04WAL {
 	ww := &c04WAL{e: e, real: w}
 	e.wal = ww
 	e.bounds = e.bounds[:0]
+	e.groupEnds = e.groupEnds[:0]
 	e.syncedEnd = ww.logicalEnd()
 	return ww
 }
@@ -785,8 +788,8 @@ func (e *c04Env) guarded(fn func()) (crashed *c04Sentinel) {
 
 // process death.  at names the point; keep/of/torn choose the surviving WAL tail.
 func (e *c04Env) crash(at string, keep, of int, torn bool, reached bool) {
-	tornLen := e.tornLen
-	e.tornLen = 0
+	tornLen, exact := e.tornLen, e.exact
+	e.tornLen, e.exact = 0, false
 	stage, signed, req := at, false, c04NoSB
 	if i := strings.Index(at, ":"); i > 0 && !strings.HasPrefix(at, "panic") {
 		// "<stage>:<signed>:<req json>"
@@ -805,10 +808,25 @@ func (e *c04Env) crash(at string, keep, of int, torn bool, reached bool) {
 	total := e.wal.logicalEnd()
 	nrec := len(e.bounds)
 	offs := append([]int64{e.syncedEnd}, e.bounds...)
+	// the schedule counts abstract records (one per op); the concrete records written by one
+	// op (a proposal and its parts, three votes, round-step events) form one group
+	groups := append([]int{}, e.groupEnds...)
+	if len(groups) == 0 || groups[len(groups)-1] < nrec {
+		groups = append(groups, nrec)
+	}
 	k := 0
 	if nrec > 0 {
-		if of <= 0 || keep >= of {
+		if exact {
+			k = keep
+			if k > nrec {
+				k = nrec
+			}
+		} else if of <= 0 || keep >= of {
 			k = nrec
+		} else if of == len(groups) {
+			if keep > 0 {
+				k = groups[keep-1]
+			}
 		} else {
 			k = (keep*nrec + of/2) / of
 			if keep > 0 && k == 0 {
@@ -828,6 +846,8 @@ func (e *c04Env) crash(at string, keep, of int, torn bool, reached bool) {
 		switch c := e.rng.Intn(4); {
 		case tornLen > 0:
 			j = int64(tornLen)
+		case tornLen < 0: // any length the decoder recognises as a torn record (>= 4 bytes)
+			j = 4 + e.rng.Int63n(c04Max64(span-4, 1))
 		case c == 0:
 			j = 1
 		case c == 1:
@@ -853,7 +873,7 @@ func (e *c04Env) crash(at string, keep, of int, torn bool, reached bool) {
 		}
 	}
 	e.emit(map[string]interface{}{"ev": "Crash", "stage": stage, "torn": e.projTmp() == "torn", "req": req, "signed": signed,
-		"file": e.projFile(), "tmp": e.projTmp(), "reached": reached, "replay": e.replaying,
+		"file": e.projFile(), "tmp": e.projTmp(), "reached": reached, "replay": e.replaying, "attempt": e.attempts,
 		"wal": map[string]interface{}{"synced": e.syncedEnd, "unsynced": nrec, "kept": k, "torn": tornCut, "tornlen": tornBytes, "cut": cut, "total": total}})
 	e.replaying = false
 }
@@ -876,6 +896,7 @@ func (e *c04Env) teardown() {
 // repair loop of State.OnStart
 func (e *c04Env) restart(fv string, d *c04CrashDir) {
 	e.inc++
+	e.emit(map[string]interface{}{"ev": "Restart", "fv": fv})
 	e.fpv = privval.LoadFilePV(e.keyPath, e.statePath)
 	e.dead = false
 	e.emit(map[string]interface{}{"ev": "Load", "mem": e.projLSS(&e.fpv.LastSignState), "file": e.projFile(), "tmp": e.projTmp()})
@@ -931,7 +952,7 @@ func (e *c04Env) restart(fv string, d *c04CrashDir) {
 	}
 	if cr != nil {
 		e.emit(map[string]interface{}{"ev": "Replay", "done": false, "err": es, "repaired": repaired})
-		e.tornLen = d.TornLen
+		e.tornLen, e.exact = d.TornLen, d.Exact
 		e.crash(cr.at, d.Keep, d.Of, d.Torn, true)
 		e.dir = nil
 		return
@@ -940,7 +961,7 @@ func (e *c04Env) restart(fv string, d *c04CrashDir) {
 	e.emit(map[string]interface{}{"ev": "Replay", "done": true, "err": es, "repaired": repaired})
 	if d != nil {
 		e.emit(map[string]interface{}{"ev": "CrashNotReached", "at": d.At})
-		e.tornLen = d.TornLen
+		e.tornLen, e.exact = d.TornLen, d.Exact
 		e.crash("idle", d.Keep, d.Of, d.Torn, false)
 	}
 	e.dir = nil
@@ -948,15 +969,18 @@ func (e *c04Env) restart(fv string, d *c04CrashDir) {
 
 // ------------------------------------------------------------------ environment inputs
 
+// the block of a class: height 1, the one transaction "c04-tx-<class>", our validator as
+// ProposerAddress.  This is bit for bit the block our own createProposalBlock makes when the
+// mempool holds that transaction, so a class names exactly one block whoever proposes it
+// (ValidateBlock only requires ProposerAddress to be a validator).
 func (e *c04Env) peerBlock(r int32, class string) types.BlockID {
-	key := fmt.Sprintf("%d/%s", r, class)
-	if id, ok := e.ids["peer:"+key]; ok {
+	if id, ok := e.ids["peer:"+class]; ok {
 		return id[0]
 	}
 	commit := types.NewCommit(0, 0, types.BlockID{}, nil)
-	block, parts := e.genState.MakeBlock(1, []types.Tx{[]byte("c04-tx-" + class)}, commit, nil, e.propAddr[r])
+	block, parts := e.genState.MakeBlock(1, []types.Tx{[]byte("c04-tx-" + class)}, commit, nil, e.priv.PubKey().Address())
 	id := types.BlockID{Hash: block.Hash(), PartSetHeader: parts.Header()}
-	e.ids["peer:"+key] = []types.BlockID{id}
+	e.ids["peer:"+class] = []types.BlockID{id}
 	e.blocks[hex.EncodeToString(id.Hash)] = block
 	e.parts[hex.EncodeToString(id.Hash)] = parts
 	e.register(class, id)
@@ -1012,29 +1036,18 @@ func (e *c04Env) fireTimeout(r int32, step cstypes.RoundStepType) {
 	e.cs.handleTimeout(ti, e.cs.RoundState)
 }
 
-// receiveRoutine, case mi = <-cs.internalMsgQueue.  One "own" step handles one signed message
-// (a proposal together with its block parts).
+// receiveRoutine, case mi = <-cs.internalMsgQueue: one own message (an own proposal is two:
+// the proposal and its block part)
 func (e *c04Env) processOwn() bool {
-	n := 0
-	for {
-		select {
-		case mi := <-e.cs.internalMsgQueue:
-			if err := e.cs.wal.WriteSync(mi); err != nil {
-				panic(fmt.Sprintf("failed to write %v msg to consensus WAL due to %v", mi, err))
-			}
-			e.cs.handleMsg(mi)
-			n++
-			if _, isVote := mi.Msg.(*VoteMessage); isVote {
-				return true
-			}
-			// proposal: go on with its parts
-			if bp, isPart := mi.Msg.(*BlockPartMessage); isPart && e.cs.ProposalBlockParts != nil &&
-				(e.cs.ProposalBlockParts.IsComplete() || int(bp.Part.Index)+1 == int(e.cs.ProposalBlockParts.Total())) {
-				return true
-			}
-		default:
-			return n > 0
+	select {
+	case mi := <-e.cs.internalMsgQueue:
+		if err := e.cs.wal.WriteSync(mi); err != nil {
+			panic(fmt.Sprintf("failed to write %v msg to consensus WAL due to %v", mi, err))
 		}
+		e.cs.handleMsg(mi)
+		return true
+	default:
+		return false
 	}
 }
 
@@ -1080,6 +1093,8 @@ func (e *c04Env) input(op *c04Op) string {
 		for i := range e.peers {
 			e.deliverPeer(&VoteMessage{Vote: e.peerVote(i, tmproto.PrevoteType, op.R, id)})
 		}
+	case "twait":
+		e.fireTimeout(op.R, cstypes.RoundStepPrevoteWait)
 	case "any":
 		ids := []types.BlockID{e.peerBlock(op.R, "A"), e.peerBlock(op.R, "B"), {}}
 		for i := range e.peers {
@@ -1139,17 +1154,20 @@ func (e *c04Env) step(op *c04Op) {
 			k, of, torn := 0, 0, false
 			if op.Crash != nil {
 				k, of, torn = op.Crash.Keep, op.Crash.Of, op.Crash.Torn
-				e.tornLen = op.Crash.TornLen
+				e.tornLen, e.exact = op.Crash.TornLen, op.Crash.Exact
 			}
 			e.crash(cr.at, k, of, torn, true)
 		} else {
 			e.drainStats()
+			if n := len(e.bounds); n > 0 && (len(e.groupEnds) == 0 || e.groupEnds[len(e.groupEnds)-1] < n) {
+				e.groupEnds = append(e.groupEnds, n)
+			}
 			ns := e.nodeState()
 			ns["ev"], ns["op"], ns["t"], ns["rr"], ns["v"], ns["fv"], ns["completed"] = "In", op.Op, op.T, int(op.R), op.V, op.Fv, true
 			e.emit(ns)
 			if op.Crash != nil {
 				e.emit(map[string]interface{}{"ev": "CrashNotReached", "at": op.Crash.At})
-				e.tornLen = op.Crash.TornLen
+				e.tornLen, e.exact = op.Crash.TornLen, op.Crash.Exact
 				e.crash("idle", op.Crash.Keep, op.Crash.Of, op.Crash.Torn, false)
 			}
 		}
@@ -1158,7 +1176,7 @@ func (e *c04Env) step(op *c04Op) {
 		if e.dead {
 			return
 		}
-		e.tornLen = op.TornLen
+		e.tornLen, e.exact = op.TornLen, op.Exact
 		e.crash("idle", op.Keep, op.Of, op.Torn, true)
 	case "restart":
 		if !e.dead {
